@@ -35,6 +35,17 @@ let () = register "tree" (fun args ->
               (string_of_z (stat_pages_free !st)) (string_of_n (stat_next_page !st)) (string_of_n (stat_free_page !st))
         | [ "datalen" ] -> string_of_n (stat_allocated !st)
         | [ "tight" ] -> st := tree_tight psn !st; "ok"
+        | [ "tight"; slack ] -> st := tree_tight_n psn (n_of_string slack) !st; "ok"
+        | [ "tfill"; k0; step; v; p; slack ] ->
+            let k = ref (n_of_string k0) and step = n_of_string step and v = n_of_string v in
+            let p = n_of_string p and slack = n_of_string slack in
+            let n = ref 0 in
+            while N.ltb (stat_pages !st) p && !n < 400000 do
+              st := tree_tight_n psn slack !st;
+              (match tree_set m psn !st !k v with Some s -> st := s | None -> failwith "panic");
+              k := add64 !k step; incr n
+            done;
+            string_of_int !n
         | [ ("fill" | "tfill") as which; k0; step; v; p ] ->
             let k = ref (n_of_string k0) and step = n_of_string step and v = n_of_string v in
             let p = n_of_string p in
